@@ -1,0 +1,37 @@
+//go:build verif
+
+package fr
+
+// Lemma functions: real Go client code, compiled only under the build tag "verif", whose contracts
+// (in zz_contracts_verif.go) state consequences of the contracts of the functions they call.
+// They are verified like any other function: callees are used through their contracts only.
+
+// lemmaFvalInjective: two reduced Montgomery residues that represent the same value are identical.
+func lemmaFvalInjective(a, b *Element) {}
+
+func lemmaBytesRoundTrip(s *Element, t *Element) {
+	b := s.Bytes()
+	t.SetBytes(b[:])
+	lemmaFvalInjective(s, t)
+}
+
+func lemmaBytesLERoundTrip(s *Element, t *Element) {
+	b := s.BytesLE()
+	t.SetBytesLE(b[:])
+	lemmaFvalInjective(s, t)
+}
+
+func lemmaBytesLECanonicalRoundTrip(s *Element, t *Element) error {
+	b := s.BytesLE()
+	_, err := t.SetBytesLECanonical(b[:])
+	if err == nil {
+		lemmaFvalInjective(s, t)
+	}
+	return err
+}
+
+func lemmaDecodeTwice(e []byte, a, b *Element) {
+	a.SetBytesLE(e)
+	b.SetBytesLE(e)
+	lemmaFvalInjective(a, b)
+}
